@@ -24,7 +24,7 @@ DEFAULT_W = {
     "newT": 4, "delT": 3, "notifyT": 1, "cpT": 1, "mvT": 1, "asgT": 1, "masgT": 1,
     # slots
     "mkS": 5, "mkS0": 1, "cpS": 2, "mvS": 1, "asgS": 2, "masgS": 1, "setS": 1, "delS": 2, "discS": 1,
-    "blockS": 2, "blockedS?": 1, "emptyS?": 3, "callS": 3,
+    "blockS": 2, "blockedS?": 1, "emptyS?": 3, "boolS?": 1, "callS": 3,
     # signals
     "newG": 3, "cpG": 2, "mvG": 1, "asgG": 1, "masgG": 1, "delG": 2,
     "conn": 4, "connfn": 8, "emit": 8, "tryemit": 1, "clear": 1, "size?": 3, "emptyG?": 1, "blockedG?": 1,
@@ -189,7 +189,7 @@ class Gen:
         if op == "setS":
             i = self.pick(self.S, p.nS, True)
             return "setS S%d %s" % (i, self.spec(want_void=(self.S.get(i) == "V")))
-        if op in ("delS", "discS", "blockedS?", "emptyS?"):
+        if op in ("delS", "discS", "blockedS?", "emptyS?", "boolS?"):
             i = self.pick(self.S, p.nS, True)
             if op == "delS" and not in_body:
                 self.S.pop(i, None)
